@@ -580,7 +580,10 @@ def run(tier, seed):
                 if sorted((p['src_addr'], p['dst_addr'], p['size']) for p in rp['patches']) != mine['patches'] or rp['total_size'] != mine['total']:
                     st_bad.append((r['old'], r['new'], r['sizes'], 'plans differ: real %s mine %s' % (rp, mine)))
                 elif rl.get('new_storage') != r['got'].get('new_storage'):
-                    st_bad.append((r['old'], r['new'], r['sizes'], 'applied storage differs'))
+                    ps_ = [(p['dst_addr'], p['size']) for p in rp['patches'] if p['size']]
+                    overlap = any(a < b + zb and b < a + za for i, (a, za) in enumerate(ps_) for (b, zb) in ps_[i + 1:])
+                    if not overlap:     # with overlapping destinations the result legitimately depends on HashSet order (that is clause 'twice')
+                        st_bad.append((r['old'], r['new'], r['sizes'], 'applied storage differs'))
         elif r['status'] == 'panic':
             if not rl.get('panic'):
                 st_bad.append((r['old'], r['new'], r['sizes'], 'encoder panics (%s), real crate does not' % r['detail'][:80]))
